@@ -1188,11 +1188,11 @@ def FIBER(
         )  # Symmetric Split-Step Fourier Method
 
         if show_progress:
-            barra_progreso.update(100 * h / length)
+            barra_progreso.update(100 * h / length if length else 100)
 
         h = step_size(A)
 
-        if x_length + h > length:
+        if x_length + h >= length:  # the next step reaches (or passes) the fiber end: the tail step below covers the rest
             break
 
         x_length += h
